@@ -521,6 +521,9 @@ func (g *ArtGen) picture(where string) (string, string) {
 	if g.P.Hidden && g.r.Chance(1, 3) {
 		sb.WriteString(`<style>` + g.toksK(1, KHidden, "style") + `</style>`)
 	}
+	if g.P.Skipped && g.r.Chance(1, 3) {
+		sb.WriteString(`<span class="spinner"></span><iframe src="https://tracker.example.net/p.html">` + g.toksK(1, KSkipped, "iframe") + `</iframe>`)
+	}
 	sb.WriteString("</picture>")
 	return sb.String(), id
 }
